@@ -809,6 +809,7 @@ func (c *compiler) compileForeach(e *Foreach) error {
 
 func (c *compiler) compileLabel(e *Label) error {
 	c.appendCodeInfo(e)
+	defer c.newScopeDepth()()
 	v := c.pushVariable("$%" + e.Ident[1:])
 	c.append(&code{op: opforklabel, v: v})
 	return c.compileQuery(e.Body)
